@@ -8,8 +8,8 @@ CONSTANTS
   MaxNodes = 2
   MaxStack = 2
   BugOptionalDropsNone = TRUE
-  FixedStar = FALSE
-  FixedFinalInString = FALSE
-  FixedNestedLiteral = FALSE
+  FixedStar = TRUE
+  FixedFinalInString = TRUE
+  FixedNestedLiteral = TRUE
 INVARIANT AnnotationRoutesAgree
 CHECK_DEADLOCK FALSE
